@@ -133,7 +133,7 @@ def run(tier, replay=None):
     else:
         # (i) state injection: every pair, the three thresholds
         t1 = time.time()
-        n_inj = {"quick": 6, "thorough": 120}[tier]
+        n_inj = {"quick": 6, "thorough": 80}[tier]
         cases = []
         for algo, family in all_pairs:
             for j in range(n_inj):
